@@ -13,17 +13,16 @@ import (
 	"io"
 	"iter"
 	"os"
+	"reflect"
 	"regexp"
 	"sort"
 	"strings"
 	"time"
 
 	"github.com/hedzr/is"
-	"github.com/hedzr/is/term/color"
 
 	istrings "github.com/hedzr/logg/slog/internal/strings"
 	"github.com/hedzr/logg/slog/internal/times"
-	sync "verif/shim/vsync"
 )
 
 // ---------------------------------------------------------------- seams
@@ -97,7 +96,8 @@ func VerifDegradedUsed() []string { return append([]string(nil), verifDegradedUs
 // VerifSnap is a snapshot of every mutable package global: a list of closures
 // that put the saved values back (one per global, see the verifSnap* functions).
 type VerifSnap struct {
-	restore []func()
+	restore      []func() // one per package-level variable (not the pools)
+	restorePools []func() // the sync.Pool variables
 }
 
 func cpMap[K comparable, V any](m map[K]V) map[K]V {
@@ -111,85 +111,149 @@ func cpMap[K comparable, V any](m map[K]V) map[K]V {
 	return r
 }
 
-func verifSnapAllLevels(s *VerifSnap) {
-	c := append([]Level(nil), allLevels...)
-	s.restore = append(s.restore, func() { allLevels = append([]Level(nil), c...) })
+// verifSnapVar saves a deep copy of one package-level variable and registers the closure that
+// puts it back (called once per variable by the generated verifGenSnapshot*, see instrument.GenGlobals:
+// the list of variables is read from the sources of the tree under check, not written down here).
+func verifSnapVar[T any](s *VerifSnap, p *T) {
+	c := verifDeepCopy(*p)
+	s.restore = append(s.restore, func() { *p = verifDeepCopy(c) })
 }
 
-func verifSnapLevelToString(s *VerifSnap) {
-	c := cpMap(levelToString)
-	s.restore = append(s.restore, func() { levelToString = cpMap(c) })
-}
-
-func verifSnapStringToLevel(s *VerifSnap) {
-	c := cpMap(stringToLevel)
-	s.restore = append(s.restore, func() { stringToLevel = cpMap(c) })
-}
-
-func verifSnapShortTagMap(s *VerifSnap) {
-	c := map[int]map[Level]string{}
-	for k, v := range shortTagMap {
-		c[k] = cpMap(v)
-	}
-	s.restore = append(s.restore, func() {
-		shortTagMap = map[int]map[Level]string{}
-		for k, v := range c {
-			shortTagMap[k] = cpMap(v)
+// verifSnapPoolVar: a pool is put back EMPTY (a zero value of its type with the same New function),
+// whatever it held when the snapshot was taken.
+func verifSnapPoolVar[T any](s *VerifSnap, p *T) {
+	s.restorePools = append(s.restorePools, func() {
+		fresh := reflect.New(reflect.TypeOf(p).Elem()).Elem()
+		if f, old := fresh.FieldByName("New"), reflect.ValueOf(p).Elem().FieldByName("New"); f.IsValid() && old.IsValid() && f.CanSet() {
+			f.Set(old)
 		}
+		*p = fresh.Interface().(T)
 	})
 }
 
-func verifSnapLevelColors(s *VerifSnap) {
-	c := map[Level][]color.Color{}
-	for k, v := range mLevelColors {
-		c[k] = append([]color.Color(nil), v...)
-	}
-	s.restore = append(s.restore, func() {
-		mLevelColors = map[Level][]color.Color{}
-		for k, v := range c {
-			mLevelColors[k] = append([]color.Color(nil), v...)
+// verifDeepCopy copies maps, slices and arrays recursively; everything else (scalars, structs,
+// pointers, interfaces, funcs) is copied by assignment.
+func verifDeepCopy[T any](v T) T {
+	rv := reflect.ValueOf(&v).Elem()
+	out := reflect.New(rv.Type()).Elem()
+	out.Set(verifDeepCopyValue(rv))
+	return out.Interface().(T)
+}
+
+func verifDeepCopyValue(v reflect.Value) reflect.Value {
+	switch v.Kind() {
+	case reflect.Map:
+		if v.IsNil() {
+			return v
 		}
-	})
+		m := reflect.MakeMapWithSize(v.Type(), v.Len())
+		it := v.MapRange()
+		for it.Next() {
+			m.SetMapIndex(it.Key(), verifDeepCopyValue(it.Value()))
+		}
+		return m
+	case reflect.Slice:
+		if v.IsNil() {
+			return v
+		}
+		sl := reflect.MakeSlice(v.Type(), v.Len(), v.Len())
+		for i := 0; i < v.Len(); i++ {
+			sl.Index(i).Set(verifDeepCopyValue(v.Index(i)))
+		}
+		return sl
+	case reflect.Array:
+		a := reflect.New(v.Type()).Elem()
+		for i := 0; i < v.Len(); i++ {
+			a.Index(i).Set(verifDeepCopyValue(v.Index(i)))
+		}
+		return a
+	}
+	return v
 }
 
-func verifSnapLevelIsEnabledAs(s *VerifSnap) {
-	c := cpMap(mLevelIsEnabledAs)
-	s.restore = append(s.restore, func() { mLevelIsEnabledAs = cpMap(c) })
+// verifDumpVar renders one package-level variable canonically (maps in key order; pointers,
+// interfaces and funcs only as nil / set).
+func verifDumpVar[T any](sb *strings.Builder, name string, p *T) {
+	sb.WriteString(name)
+	sb.WriteByte('=')
+	verifCanon(sb, reflect.ValueOf(p).Elem(), 0)
+	sb.WriteByte('\n')
 }
 
-func verifSnapLevelUseErrorDevice(s *VerifSnap) {
-	c := cpMap(mLevelUseErrorDevice)
-	s.restore = append(s.restore, func() { mLevelUseErrorDevice = cpMap(c) })
-}
-
-func verifSnapFlags(s *VerifSnap) {
-	c := flags
-	s.restore = append(s.restore, func() { flags = c })
-}
-
-func verifSnapLvlCurrent(s *VerifSnap) {
-	c := lvlCurrent
-	s.restore = append(s.restore, func() { lvlCurrent = c })
-}
-
-func verifSnapKnownPathMap(s *VerifSnap) {
-	c := cpMap(knownPathMap)
-	s.restore = append(s.restore, func() { knownPathMap = cpMap(c) })
-}
-
-func verifSnapKnownPathRegexpMap(s *VerifSnap) {
-	c := append([]regRepl(nil), knownPathRegexpMap...)
-	s.restore = append(s.restore, func() { knownPathRegexpMap = append([]regRepl(nil), c...) })
-}
-
-func verifSnapCodeHosting(s *VerifSnap) {
-	c := cpMap(codeHostingProvidersMap)
-	s.restore = append(s.restore, func() { codeHostingProvidersMap = cpMap(c) })
-}
-
-func verifSnapWidths(s *VerifSnap) {
-	a, b := minimalMessageWidth, levelOutputWidth
-	s.restore = append(s.restore, func() { minimalMessageWidth, levelOutputWidth = a, b })
+func verifCanon(sb *strings.Builder, v reflect.Value, depth int) {
+	if depth > 6 {
+		sb.WriteString("...")
+		return
+	}
+	switch v.Kind() {
+	case reflect.Bool:
+		fmt.Fprint(sb, v.Bool())
+	case reflect.Int, reflect.Int8, reflect.Int16, reflect.Int32, reflect.Int64:
+		fmt.Fprint(sb, v.Int())
+	case reflect.Uint, reflect.Uint8, reflect.Uint16, reflect.Uint32, reflect.Uint64, reflect.Uintptr:
+		fmt.Fprint(sb, v.Uint())
+	case reflect.Float32, reflect.Float64:
+		fmt.Fprint(sb, v.Float())
+	case reflect.Complex64, reflect.Complex128:
+		fmt.Fprint(sb, v.Complex())
+	case reflect.String:
+		fmt.Fprintf(sb, "%q", v.String())
+	case reflect.Map:
+		if v.IsNil() {
+			sb.WriteString("nil")
+			return
+		}
+		type kv struct {
+			k string
+			v reflect.Value
+		}
+		var kvs []kv
+		it := v.MapRange()
+		for it.Next() {
+			var kb strings.Builder
+			verifCanon(&kb, it.Key(), depth+1)
+			kvs = append(kvs, kv{kb.String(), it.Value()})
+		}
+		sort.Slice(kvs, func(i, j int) bool { return kvs[i].k < kvs[j].k })
+		sb.WriteByte('{')
+		for _, e := range kvs {
+			sb.WriteString(e.k)
+			sb.WriteByte(':')
+			verifCanon(sb, e.v, depth+1)
+			sb.WriteByte(',')
+		}
+		sb.WriteByte('}')
+	case reflect.Slice, reflect.Array:
+		if v.Kind() == reflect.Slice && v.IsNil() {
+			sb.WriteString("nil")
+			return
+		}
+		sb.WriteByte('[')
+		for i := 0; i < v.Len(); i++ {
+			verifCanon(sb, v.Index(i), depth+1)
+			sb.WriteByte(',')
+		}
+		sb.WriteByte(']')
+	case reflect.Struct:
+		sb.WriteByte('{')
+		for i := 0; i < v.NumField(); i++ {
+			sb.WriteString(v.Type().Field(i).Name)
+			sb.WriteByte(':')
+			verifCanon(sb, v.Field(i), depth+1)
+			sb.WriteByte(',')
+		}
+		sb.WriteByte('}')
+	case reflect.Ptr, reflect.Interface, reflect.Func, reflect.Chan, reflect.UnsafePointer:
+		if v.IsNil() {
+			sb.WriteString("nil")
+		} else if v.Kind() == reflect.Ptr && v.Type().String() == "*regexp.Regexp" && v.CanInterface() {
+			fmt.Fprintf(sb, "%q", v.Interface().(*regexp.Regexp).String())
+		} else {
+			sb.WriteString("set")
+		}
+	default:
+		sb.WriteString("?")
+	}
 }
 
 func verifSnapModes(s *VerifSnap) {
@@ -205,42 +269,32 @@ func verifFreshDefaults() {
 
 func VerifSnapshot() *VerifSnap {
 	s := &VerifSnap{}
-	verifSnapAllLevels(s)
-	verifSnapLevelToString(s)
-	verifSnapStringToLevel(s)
-	verifSnapShortTagMap(s)
-	verifSnapLevelColors(s)
-	verifSnapLevelIsEnabledAs(s)
-	verifSnapLevelUseErrorDevice(s)
-	verifSnapFlags(s)
-	verifSnapLvlCurrent(s)
-	verifSnapKnownPathMap(s)
-	verifSnapKnownPathRegexpMap(s)
-	verifSnapCodeHosting(s)
-	verifSnapWidths(s)
+	verifGenSnapshot(s)
+	verifGenSnapshotPools(s)
 	verifSnapModes(s)
 	return s
 }
 
 // VerifRestore puts every mutable package global back to the snapshot. The
-// default logger and default writer are re-created fresh and the pools replaced.
+// default logger and default writer are re-created fresh and the pools replaced
+// by what they were when the snapshot was taken (empty, at process start).
 func VerifRestore(s *VerifSnap) {
 	for _, f := range s.restore {
 		f()
 	}
+	for _, f := range s.restorePools {
+		f()
+	}
 	verifFreshDefaults()
-	VerifResetPools()
 }
 
-// VerifResetPools replaces both pools by fresh ones and resets the warm-up size.
-func VerifResetPools() {
-	poolPrintCtx = sync.Pool{New: func() any { return newPrintCtx() }}
-	poolAttrs = sync.Pool{New: func() any { return newFixedAttrs() }}
-	fixedSize = 128
+// VerifResetPools empties the pools (puts back their state at snapshot time).
+func VerifResetPools(s *VerifSnap) {
+	for _, f := range s.restorePools {
+		f()
+	}
 }
 
-// VerifPools gives the harness access to the (shimmed) pools.
-func VerifPools() (pcPool, attrsPool *sync.Pool) { return &poolPrintCtx, &poolAttrs }
 
 func sortedKeys[K cmp.Ordered, V any](m map[K]V) []K {
 	keys := make([]K, 0, len(m))
@@ -251,62 +305,23 @@ func sortedKeys[K cmp.Ordered, V any](m map[K]V) []K {
 	return keys
 }
 
-// VerifDumpGlobals renders every mutable global table canonically.
+// VerifDumpGlobals renders every package-level variable canonically (generated list), plus the
+// process-wide debug/trace modes and the level of the default logger.
 func VerifDumpGlobals() string {
 	var sb strings.Builder
-	fmt.Fprintf(&sb, "allLevels=%v\n", allLevels)
-	sb.WriteString("levelToString=")
-	for _, k := range sortedKeys(levelToString) {
-		fmt.Fprintf(&sb, "%d:%q,", int(k), levelToString[k])
+	verifGenDump(&sb)
+	fmt.Fprintf(&sb, "debug=%v trace=%v\n", is.DebugMode(), is.TraceMode())
+	if d := Default(); d != nil {
+		fmt.Fprintf(&sb, "default.level=%d\n", int(d.Level()))
 	}
-	sb.WriteString("\nstringToLevel=")
-	for _, k := range sortedKeys(stringToLevel) {
-		fmt.Fprintf(&sb, "%q:%d,", k, int(stringToLevel[k]))
-	}
-	sb.WriteString("\nshortTagMap=")
-	for _, n := range sortedKeys(shortTagMap) {
-		fmt.Fprintf(&sb, "[%d]", n)
-		for _, k := range sortedKeys(shortTagMap[n]) {
-			fmt.Fprintf(&sb, "%d:%q,", int(k), shortTagMap[n][k])
-		}
-	}
-	sb.WriteString("\ncolors=")
-	for _, k := range sortedKeys(mLevelColors) {
-		fmt.Fprintf(&sb, "%d:%v,", int(k), mLevelColors[k])
-	}
-	sb.WriteString("\nenabledAs=")
-	for _, k := range sortedKeys(mLevelIsEnabledAs) {
-		fmt.Fprintf(&sb, "%d:%d,", int(k), int(mLevelIsEnabledAs[k]))
-	}
-	sb.WriteString("\nerrDevice=")
-	for _, k := range sortedKeys(mLevelUseErrorDevice) {
-		fmt.Fprintf(&sb, "%d:%v,", int(k), mLevelUseErrorDevice[k])
-	}
-	fmt.Fprintf(&sb, "\nflags=%d lvlCurrent=%d mmw=%d low=%d debug=%v trace=%v\n",
-		int64(flags), int(lvlCurrent), minimalMessageWidth, levelOutputWidth, is.DebugMode(), is.TraceMode())
-	sb.WriteString("knownPathMap=")
-	for _, k := range sortedKeys(knownPathMap) {
-		fmt.Fprintf(&sb, "%q:%q,", k, knownPathMap[k])
-	}
-	sb.WriteString("\nknownPathRegexpMap=")
-	for _, r := range knownPathRegexpMap {
-		fmt.Fprintf(&sb, "%q:%q,", r.expr.String(), r.repl)
-	}
-	sb.WriteString("\ncodeHosting=")
-	for _, k := range sortedKeys(codeHostingProvidersMap) {
-		fmt.Fprintf(&sb, "%q:%q,", k, codeHostingProvidersMap[k])
-	}
-	sb.WriteString("\n")
 	return sb.String()
 }
 
-// VerifDumpRegistry renders only the level registry tables.
+// VerifDumpRegistry renders the package-level variables whose type mentions Level (the registry tables).
 func VerifDumpRegistry() string {
-	s := VerifDumpGlobals()
-	if i := strings.Index(s, "\nflags="); i >= 0 {
-		return s[:i]
-	}
-	return s
+	var sb strings.Builder
+	verifGenDumpLevels(&sb)
+	return sb.String()
 }
 
 func VerifTreatedAs(l Level) (Level, bool) { t, ok := mLevelIsEnabledAs[l]; return t, ok }
